@@ -132,6 +132,39 @@ def engine_probes(ctx, prop, r):
                                'case': 'codepoint %d in the probe contexts of harness/extra.go (probeCtx)' % cp, 'impl': ' '.join(f[2:])})
     r.samples.append({'stream': 'probes', 'case': open(out).readlines()[1000].strip()})
 
+# Which operations a property's statement is about. A disagreement between model and implementation is a broken
+# correspondence *for a property* only when it first shows at a step whose operation is in the property's scope
+# (for C08: only when the re-observation of earlier pool entries differs); otherwise the case is set aside for
+# this property - the disagreement belongs to another property's check.
+SEL = {'chars', 'charsfrom', 'charsto'}
+LIN = {'lines', 'linesfrom', 'linesto'}
+ALLOPS = None
+SCOPE = {
+    'C03': ALLOPS, 'C17': ALLOPS, 'C18': ALLOPS, 'C08': ALLOPS,
+    'C04': SEL | {'withopts'},
+    'C05': SEL | LIN | {'commit', 'commitall', 'withopts'},
+    'C06': {'wrap', 'withopts'},
+    'C07': {'wrap', 'collapse', 'justify', 'align', 'indent', 'withopts'},
+    'C09': {'insert', 'delete', 'overtype', 'withopts'},
+    'C10': LIN | {'apply', 'withopts'},
+    'C11': {'applyparas', 'wrap', 'justify', 'align', 'indent', 'withopts'},
+    'C12': {'justify', 'withopts'},
+    'C13': {'align', 'withopts'},
+    'C14': {'twocols', 'withopts'},
+    'C15': {'deftable', 'withopts'},
+    'C16': {'table', 'withopts'},
+}
+
+def in_scope(prop, opname, kind, model_tok=''):
+    if prop == 'C08':
+        return kind == 'P'
+    if prop == 'C18':
+        # totality: what matters is whether model and implementation disagree on panicking / running out of fuel
+        # (an implementation panic is a failing verdict of its own); a difference in content belongs elsewhere
+        return model_tok.split(';')[0] in ('P', 'F')
+    sc = SCOPE.get(prop, ALLOPS)
+    return sc is None or opname in sc
+
 MANIP_KINDS = {'C04': 'RI', 'C06': 'WR', 'C07': 'CS,WR', 'C12': 'JL', 'C13': 'AL', 'C14': 'CC,WR', 'C15': 'CC,WR', 'C16': 'MT',
                'C18': 'CS,WR,JL,AL,CC,MT,RI', 'C03': 'CS,WR,JL,AL'}
 
@@ -267,6 +300,7 @@ class Result:
         self.distribution = {}
         self.engine_errors = []
         self.exhaustive = False
+        self.out_of_scope = {}
 
 def load_known(verif):
     p = os.path.join(verif, 'known_findings.json')
@@ -336,8 +370,12 @@ def digest(ctx, prop, r, stream, cases, res, out, witness_ids=None):
         if f[1] == 'OK':
             r.agreements += 1
         elif f[1] == 'DIFF':
-            r.disagreements.append({'id': cid, 'stream': stream, 'step': f[2], 'model': ' '.join(f[3:])[:400],
-                                    'case': case_by_id.get(cid, '')[:2000], 'impl': res_by_id.get(cid, '')[:2000]})
+            opname, kind = (f[3], f[4]) if len(f) > 4 else ('?', 'R')
+            if in_scope(prop, opname, kind, f[5] if len(f) > 5 else ''):
+                r.disagreements.append({'id': cid, 'stream': stream, 'step': f[2], 'op': opname, 'part': kind, 'model': ' '.join(f[5:])[:400],
+                                        'case': case_by_id.get(cid, '')[:2000], 'impl': res_by_id.get(cid, '')[:2000]})
+            else:
+                r.out_of_scope[opname] = r.out_of_scope.get(opname, 0) + 1
         elif f[1] == 'M' and (f[2] == prop or f[2] in also):
             model_ok[(cid, f[3], f[6] if len(f) > 6 else '-')] = (f[5] == '1')
         elif f[1] == 'V' and (f[2] == prop or f[2] in also):
@@ -434,7 +472,7 @@ def replay(ctx, prop, path):
         fl = l.split()
         if len(fl) > 2 and (fl[1] in ('OK', 'DIFF') or fl[2] == prop):
             print(l.rstrip())
-            if fl[1] == 'DIFF' or (fl[1] == 'V' and fl[5] == '0'):
+            if (fl[1] == 'DIFF' and (len(fl) < 5 or in_scope(prop, fl[3], fl[4], fl[5] if len(fl) > 5 else ''))) or (fl[1] == 'V' and fl[5] == '0'):
                 bad = True
     if bad:
         print('VIOLATION property=%s replay=%s' % (prop, path))
